@@ -131,10 +131,20 @@ def r1_index_discipline(R) -> None:
                    ('fsic.fortran.FortranEngine._evaluate', 'evaluate')):
         fi = R.repo.func(q)
         n_vals = 0
+        # the engine result: the first of the names the call of self.ENGINE.<sub>(...) is unpacked into (the matrix comes first
+        # in every routine: C07.R2), whatever it is called
+        first = {'solved_values'}
+        for n in iter_own_nodes(fi.node):
+            if isinstance(n, ast.Assign) and len(n.targets) == 1 and isinstance(n.value, ast.Call) and isinstance(n.value.func, ast.Attribute) \
+                    and text(n.value.func.value) == 'self.ENGINE':
+                tg = n.targets[0]
+                e0 = tg.elts[0] if isinstance(tg, ast.Tuple) and tg.elts else tg
+                if isinstance(e0, ast.Name):
+                    first = {e0.id}
         for n in iter_own_nodes(fi.node):
             if isinstance(n, ast.Assign) and len(n.targets) == 1 and text(n.targets[0]) == 'self.values':
                 n_vals += 1
-                R.check(isinstance(n.value, ast.Name) and n.value.id == 'solved_values', q, f'values-store:{text(n)}',
+                R.check(isinstance(n.value, ast.Name) and n.value.id in first, q, f'values-store:{text(n)}',
                         'the matrix stored back is the engine result', f'`{text(n)}` does not store the engine result',
                         where=f'{fi.module.relpath}:{n.lineno}')
         R.expect(q, n_vals, 1, '`self.values = solved_values` store')
